@@ -26,7 +26,8 @@ import (
 	"verif/internal/instr"
 )
 
-const repo = "/repo"
+// repo is the tree under test (VERIF_REPO overrides it: used to run a check against a scratch copy with a seeded change).
+var repo = "/repo"
 
 var verifDir = "/verif"
 
@@ -142,6 +143,9 @@ func main() {
 	}
 	if d := os.Getenv("VERIF_DIR"); d != "" {
 		verifDir = d
+	}
+	if d := os.Getenv("VERIF_REPO"); d != "" {
+		repo = d
 	}
 	seed, _ := strconv.Atoi(os.Getenv("VERIF_SEED"))
 	start := time.Now()
@@ -603,6 +607,9 @@ func report(c *Check, rs []*WorkerResult, findings []*Finding, tier string, seed
 	for _, nv := range fresh {
 		code = 1
 		dir := filepath.Join(verifDir, "replays", c.ID)
+		if os.Getenv("VERIF_REPO") != "" {
+			dir = filepath.Join(verifDir, "replays-mut", c.ID)
+		}
 		os.MkdirAll(dir, 0o755)
 		h := sha1.Sum([]byte(nv.scenario + nv.v.Clause + nv.v.Signature))
 		path := filepath.Join(dir, fmt.Sprintf("%s-%s.json", sanitize(nv.scenario), hex.EncodeToString(h[:4])))
@@ -657,9 +664,13 @@ func report(c *Check, rs []*WorkerResult, findings []*Finding, tier string, seed
 		"property_id": c.ID, "tier": tier, "seed": seed, "level": c.Level, "coverage": cov,
 		"assumptions": assume, "wall_s": wall, "violations": len(fresh), "notes": notes,
 	}
-	os.MkdirAll(filepath.Join(verifDir, "evidence"), 0o755)
+	evDir := filepath.Join(verifDir, "evidence")
+	if os.Getenv("VERIF_REPO") != "" {
+		evDir = filepath.Join(verifDir, "evidence-mut") // runs against a scratch copy never touch the real evidence
+	}
+	os.MkdirAll(evDir, 0o755)
 	b, _ := json.MarshalIndent(ev, "", " ")
-	if err := os.WriteFile(filepath.Join(verifDir, "evidence", c.ID+".json"), b, 0o644); err != nil {
+	if err := os.WriteFile(filepath.Join(evDir, c.ID+".json"), b, 0o644); err != nil {
 		fatal(2, "evidence: %v", err)
 	}
 	fmt.Printf("%s %s: executions=%d states=%d transitions=%d outcomes=%d exhaustive=%v violations=%d known=%d wall=%.1fs\n",
